@@ -30,6 +30,7 @@ func init() {
 			{ID: "C09-R4", Title: "objects from shared registries/caches are not mutated after publication", Floor: 3, Run: c09r4},
 			{ID: "C09-R5", Title: "mutex-guarded VM maps are copied, not aliased, into another VM", Floor: 2, Run: c09r5},
 			{ID: "C09-R6", Title: "callbacks from other goroutines run on a clone made for that call", Floor: 2, Run: freshClonePerCall},
+			{ID: "C09-R7", Title: "registry-cached descriptors and converters are written only while they are built", Floor: 5, Run: cachedObjectsImmutable},
 		},
 	})
 }
